@@ -27,7 +27,7 @@ def run(rec):
                 'entanglement/mutual information, charge statistics, sample_measurements weights; oracle = dense state and kron '
                 'operators with explicit JW strings; non-trivial = max chi >= 2')
     rec.bounds = {'L': Ls, 'reps': reps}
-    for fname, fam in mpsgen.site_families():
+    for fname, fam in [x for x in mpsgen.site_families() if not getattr(x[1], 'takes_L', False)]:
         for L in Ls:
             for rep in range(reps):
                 inp = {'sites': fname, 'L': L, 'rep': rep, 'seed': rec.seed}
